@@ -8,7 +8,7 @@ P=$1; PATCH=$2; TIER=${3:-quick}
 cd /tmp/mutrepo && git checkout -q --detach $(git -C /repo rev-parse HEAD) && git checkout -- . && git clean -fdq
 git apply "$PATCH" || { echo "patch does not apply"; exit 2; }
 mkdir -p /tmp/mutverif
-rsync -a --delete --exclude .git --exclude harness/target --exclude harness-default/target --exclude lean/.lake --exclude work --exclude replays --exclude evidence /verif/ /tmp/mutverif/
+rsync -a --delete --exclude .git --exclude harness/target --exclude harness/target-nobz --exclude harness-default/target --exclude lean/.lake --exclude work --exclude replays --exclude evidence /verif/ /tmp/mutverif/
 [ -d /tmp/mutverif/lean/.lake ] || cp -r /verif/lean/.lake /tmp/mutverif/lean/.lake
 cd /tmp/mutverif
 sed -i 's#path = "/repo"#path = "/tmp/mutrepo"#' harness/Cargo.toml harness-default/Cargo.toml
